@@ -16,11 +16,11 @@ func TestC14(t *testing.T) {
 		Meta: map[string]any{
 			"components": map[string]string{
 				"aquahash engine: Seal (thread fan-out, stop, update/restart), mine loop, VerifySeal, argon2id versions 2-4": "real (ModeNormal, StartVersion 2)",
-				"search threads":                     "real goroutines adopted at a guarded yield point: one nonce attempt per release, the simulator chooses which thread runs",
-				"consensus.ChainReader":              "simulator-owned (only Config() is consulted)",
+				"search threads":                       "real goroutines adopted at a guarded yield point: one nonce attempt per release, the simulator chooses which thread runs",
+				"consensus.ChainReader":                "simulator-owned (only Config() is consulted)",
 				"transport between miner and verifier": "simulated: sealed headers are altered in one field before verification",
-				"reference verifier":                 "independent: own RLP, Keccak, argon2.IDKey called directly, literal fork tables (refmodel/seal.go)",
-				"ethash (header version 1)":          "not simulated (needs a DAG); covered only by the repository's own test",
+				"reference verifier":                   "independent: own RLP, Keccak, argon2.IDKey called directly, literal fork tables (refmodel/seal.go)",
+				"ethash (header version 1)":            "not simulated (needs a DAG); covered only by the repository's own test",
 			},
 			"assumptions": []string{
 				"scope: the miner/verifier interplay under thread scheduling, stop and SetThreads, and damaged seals; the acceptance predicate by itself is a pure function of its input and is only sampled here (hash == target exactly is not reachable by search)",
